@@ -91,7 +91,7 @@ func runC01(tier string) int {
 	if tier == "thorough" {
 		plans = []famPlan{{fams[0], 5}, {fams[1], 7}, {fams[2], 6}, {fams[3], 6}}
 	} else {
-		plans = []famPlan{{fams[0], 3}, {fams[1], 5}, {fams[2], 5}, {fams[3], 5}}
+		plans = []famPlan{{fams[0], 4}, {fams[1], 5}, {fams[2], 5}, {fams[3], 5}}
 	}
 	var fpMu sync.Mutex
 	fps := map[uint64]struct{}{}
